@@ -66,6 +66,9 @@ Definition add_unw (u : unw) (s : st) : st :=
 Definition add_lab (l : label) (p : Z) (s : st) : st :=
   {| s_w := s_w s; s_len := s_len s; s_labs := (l, p) :: s_labs s; s_unw := s_unw s |}.
 
+(* List.rev is quadratic under vm_compute; rev_append is the same function (List.rev_alt) *)
+Definition frev {A} (l : list A) : list A := rev_append l [].
+
 Definition memN (i : N) (W : list N) : bool := existsb (N.eqb i) W.
 
 Definition GOTO_W : N := 200%N.
@@ -224,7 +227,7 @@ Definition attempt (W : list N) (b : body) (last : option label) : aresult :=
   | PANIC => APanic
   | OK s =>
       let labs := finish_labels last s in
-      match patch labs (rev (s_unw s)) (rev (s_w s)) with
+      match patch labs (frev (s_unw s)) (frev (s_w s)) with
       | PDone w => if (s_len s =? 0) || (u16max <? s_len s) then AErr else ADone w labs
       | PRestart i => ARestart i
       | PErr => AErr
@@ -335,7 +338,7 @@ Fixpoint slots_of (es : list pentry) (i : Z) : list (Z * pentry) :=
   | e :: r => (i, e) :: slots_of r (i + (if pe_two e then 2 else 1))
   end.
 Definition pool_resolve (p : pool) (i : Z) : option pentry :=
-  match find (fun ie => fst ie =? i) (slots_of (rev (p_inner p)) 1) with
+  match find (fun ie => fst ie =? i) (slots_of (frev (p_inner p)) 1) with
   | Some ie => Some (snd ie)
   | None => None
   end.
